@@ -121,11 +121,14 @@ impl<Body> AmendedRequest<Body> {
     }
 
     pub fn headers(&self) -> impl Iterator<Item = (&HeaderName, &HeaderValue)> {
-        self.headers
-            .iter()
-            .map(|v| (&v.0, &v.1))
-            .chain(self.request.headers().iter())
-            .filter(|v| !self.unset.iter().any(|x| x == v.0))
+        // The unset headers are the ones inherited from the original request. Headers
+        // explicitly set on this (amended) request are always sent.
+        self.headers.iter().map(|v| (&v.0, &v.1)).chain(
+            self.request
+                .headers()
+                .iter()
+                .filter(|v| !self.unset.iter().any(|x| x == v.0)),
+        )
     }
 
     fn headers_get_all(&self, key: &'static str) -> impl Iterator<Item = &HeaderValue> {
